@@ -207,13 +207,18 @@ def l2_models(ctx, common, tabs, which):
     if "dotchain" in which:
         run("DotChainMC", lambda wd: beh.dotchain_behaviours(wd, 7, maxcmt=1 if q else 2), 44)
     if "comment" in which:
-        run("CommentMC", lambda wd: beh.comment_behaviours(wd, 2 if q else 3), 16)
+        # (C12 records every behaviour under four units: the two-line comments suffice there)
+        run("CommentMC", lambda wd: beh.comment_behaviours(wd, 2 if q or ctx.prop == "C12" else 3), 16)
+    if "mode" in which:
+        run("ModeMC", lambda wd: beh.mode_behaviours(wd, 2 if q else 3, maxw=44 if q else 56), 44 if q else 56)
+    if "item" in which:
+        run("ItemMC", lambda wd: beh.item_behaviours(wd, 2, 4 if q else 5), 40)
     if "import" in which:
         run("ImportMC", lambda wd: beh.import_behaviours(wd, ids=("a", "ab", "b", "ma") if q else ("a", "ab", "b", "ba", "ma", "mb"),
                                                          maxtriv=1), 40)
     if "table" in which:
         kinds = ["cols2", "cell", "hdr", "gutter"] if q else ["cols2", "colsA", "cell", "hdr", "ftr", "hline", "hdrS", "gutter", "spread"]
-        run("TableMC", lambda wd: beh.table_behaviours(wd, kinds, 4 if q else 3, maxw=20), 20)
+        run("TableMC", lambda wd: beh.table_behaviours(wd, kinds, 3, maxw=20), 20)
     if "math" in which:
         run("MathArgsMC", lambda wd: beh.mathargs_behaviours(wd, 5 if q else 6, maxw=24), 24)
         run("MathDelimMC[block]", lambda wd: beh.mathdelim_behaviours(wd, 5 if q else 6, True, maxw=24), 24)
@@ -251,6 +256,10 @@ def fmt_family(ctx, rels, parts, seed_tags="", trivia_tags="", passes=False, gap
         return
     if models:
         l2_models(ctx, common, tabs, models)
+    if os.environ.get("VERIF_TRIAGE") and os.environ.get("VERIF_TRIAGE_MODELS"):
+        # maintainer mode (after a new L2 model was wired): only the behaviours of the models
+        ctx.validate("TraceFmt", rels)
+        return
     ctx.record("fix", universe="fix+chunk", widths=FIX_W_QUICK if q else FIX_W_THORO, tabs=tabs,
                max_bytes=fix_max_quick if q else (1 << 30), chunk_frac="1/8" if q else "1/1", **common)
     gap = dict(universe="gap", widths="all", single=gap_quick if q else "1/1", single_fixed=single_fixed, pair_fixed=pair_fixed,
@@ -272,7 +281,7 @@ def fmt_family(ctx, rels, parts, seed_tags="", trivia_tags="", passes=False, gap
 
 def c01(ctx):
     # the tree projections are the heaviest events: C01's universe is a fixed third of the single placements
-    fmt_family(ctx, ["R01"], "tree", gap_quick="1/4", single_fixed="1/3", pair_fixed="1/1200", tabs="2,4", models=("list", "flow", "table"))
+    fmt_family(ctx, ["R01"], "tree", gap_quick="1/4", single_fixed="1/3", pair_fixed="1/1200", tabs="2,4", models=("list", "flow", "table", "mode", "item"))
 
 
 def c03(ctx):
@@ -281,7 +290,7 @@ def c03(ctx):
 
 
 def c04(ctx):
-    fmt_family(ctx, ["R04"], "fmt", gap_quick="1/4", pair_fixed="1/100", tabs="2,4", models=("list", "chain", "flow", "dotchain"))
+    fmt_family(ctx, ["R04"], "fmt", gap_quick="1/4", pair_fixed="1/100", tabs="2,4", models=("list", "chain", "flow", "dotchain", "mode"))
 
 
 def c06(ctx):
@@ -293,7 +302,7 @@ def c06(ctx):
 
 
 def c08(ctx):
-    fmt_family(ctx, ["R08"], "flat", models=("markup",), seed_tags="markup,prose,list-item,comment,degenerate", gap_quick="1/4",
+    fmt_family(ctx, ["R08"], "flat", models=("markup", "item"), seed_tags="markup,prose,list-item,comment,degenerate", gap_quick="1/4",
                pair_fixed="1/200")
 
 
@@ -306,12 +315,32 @@ def c10(ctx):
 
 
 def c11(ctx):
+    # L2: the renderer / strip transcription over ALL Docs of depth <= 2, then its conformance with the real `pretty`
+    # renderer and strip_trailing_whitespace on Docs exported from the real formatter (drift, not a verdict)
+    ctx.design_check("DocRenderMC", "SPECIFICATION Spec\nCONSTANTS Depth = 2\n MaxW = %d\nINVARIANTS InvHygiene InvStripOnly InvWidthStable "
+                     "InvGroupIdem InvTextKept InvFitsWide\nCHECK_DEADLOCK FALSE\n" % (6 if ctx.quick else 10), workers=4)
+    dd = os.path.join(ctx.work, "rec-docs")
+    C.run([C.VT, "docs", "--universe", "fix+gap", "--single", "1/400" if ctx.quick else "1/60", "--pair", "0/1", "--max-bytes", "1500",
+           "--widths", "0,40,120" if ctx.quick else "0,1,20,40,80,120", "--take", "150" if ctx.quick else "1200", "--seed", str(ctx.seed),
+           "--outdir", dd, "--shards", "8", "--verif", C.VERIF, "--fixtures", os.path.join(C.REPO, "tests", "fixtures")], timeout=3000)
+    sd = json.load(open(os.path.join(dd, "summary.json")))
+    r = C.validate_traces("TraceDoc", 'CONSTANT Rels = {"RenderConforms", "StripConforms"}\n',
+                          sorted(glob.glob(os.path.join(dd, "shard-*.ndjson"))), os.path.join(ctx.work, "val-docs"), specname="TSpec")
+    ctx.states += r["states"]
+    ctx.transitions += r["transitions"]
+    ctx.traces += r["traces"]
+    ctx.extra["renderer_conformance"] = dict(docs=r["checked"], doc_nodes=sd["universe_stats"]["doc_nodes"],
+                                             unopened_closures=sd["universe_stats"]["unopened_closures"], drift=len(r["viol"]),
+                                             samples=[v["id"] for v in r["viol"][:5]])
+    if r["viol"]:
+        C.log("MODEL DRIFT: DocRender.tla disagrees with the real renderer on %d exported Docs (not a verdict)" % len(r["viol"]))
     fmt_family(ctx, ["R11"], "lines", gap_quick="1/8", pair_fixed="1/400")
 
 
 def c12(ctx):
-    fmt_family(ctx, ["R12a", "R12b"], "lines,unit", gap_quick="1/12", pair_fixed="1/800", tabs="2,3,5,8",
-               models=("list", "dotchain", "comment"))
+    # four units multiply every recording: C12's universe is a fixed half of the single placements
+    fmt_family(ctx, ["R12a", "R12b"], "lines,unit", gap_quick="1/6", single_fixed="1/2", pair_fixed="1/800", tabs="2,3,5,8",
+               models=("list", "dotchain", "comment", "item"))
 
 
 def c19(ctx):
@@ -528,6 +557,9 @@ def c05(ctx):
 
 def c13(ctx):
     q = ctx.quick
+    # L2: clamp / trim / innermost covering formattable node / refusal, over all trees x texts x ranges
+    ctx.design_check("RangeMC", "SPECIFICATION Spec\nCONSTANTS TextLen = %d\n MaxNodes = %d\n TrimFirst = FALSE\nINVARIANTS InvNoPanic InvCover "
+                     "InvInnermost InvRefuse InvTrim\nCHECK_DEADLOCK FALSE\n" % ((3, 3) if q else (4, 4)), workers=6)
     d = os.path.join(ctx.work, "rec-ranges")
     t = time.time()
     C.run([C.VT, "ranges", "--universe", "gap+chunk", "--single-fixed", "1/40", "--single", "1/4" if q else "1/1", "--chunk-bytes", "80",
